@@ -231,6 +231,23 @@ ModelEval(p) ==
      /\ last' = [act |-> "ModelEval"]
   /\ UNCHANGED <<phase, shape, prm, names, skeys, rnames, pts, pool, upd, sens, def, est, twin>>
 
+\* Two evaluations in a row at NEIGHBOURING points: the second differs from the first in one state only.  A compiled model is a
+\* function of its arguments -- nothing of the first call may survive into the second (values kept from "the same point"
+\* are only right if the point really is the same).  -1 and -2 are swapped for each other (Python hashes both to -2, so a cache keyed
+\* on hashes takes them for the same point); any other value moves by one.
+Near(v) == IF v = RI(-1) THEN RI(-2) ELSE IF v = RI(-2) THEN RI(-1) ELSE RAdd(v, One)
+ModelEvalNear(p, s) ==
+  /\ phase = "run" /\ Len(steps) + 1 < MaxSteps /\ "ModelEvalNear" \in Acts /\ p \in RangeOf(pts) /\ s \in StateOf
+  /\ LET e == PointEnv(p)
+         x2 == [e.x EXCEPT ![s] = Near(e.x[s])]
+         e2 == [dt |-> e.dt, x |-> x2, u |-> e.u]
+         xn == StepV(e)  xn2 == StepV(e2) IN
+     /\ ~VBad(xn) /\ ~VBad(xn2)
+     /\ steps' = steps \o << [act |-> "ModelEval", dt |-> e.dt, x |-> e.x, u |-> e.u, xn |-> xn],
+                              [act |-> "ModelEval", dt |-> e.dt, x |-> x2, u |-> e.u, xn |-> xn2] >>
+     /\ last' = [act |-> "ModelEval"]
+  /\ UNCHANGED <<phase, shape, prm, names, skeys, rnames, pts, pool, upd, sens, def, est, twin>>
+
 JacEval(p) ==
   /\ CanStep /\ "JacEval" \in Acts /\ p \in RangeOf(pts)
   /\ LET e == PointEnv(p)
@@ -432,6 +449,7 @@ Next ==
   \/ \E i \in DOMAIN pool : BindReading(i)
   \/ Compile
   \/ \E p \in RangeOf(pts) : ModelEval(p)
+  \/ \E p \in RangeOf(pts) : \E s \in StateOf : ModelEvalNear(p, s)
   \/ \E p \in RangeOf(pts) : JacEval(p)
   \/ \E p \in RangeOf(pts) : \E key \in RangeOf(skeys) : SensEval(key, p)
   \/ \E p \in RangeOf(pts) : \E rp \in 0..(Len(PDiag) - 1) : SetEstimate(p, rp)
